@@ -684,10 +684,27 @@ namespace sim
                 S().park_threads_at_start = gatedStart;
             }
             Address addr(Ipv4::loopback(), Port(0));
-            ep = std::make_shared<Http::Endpoint>(addr);
-            ep->init(opts.threads(nworkers));
-            ep->setHandler(handler);
-            ep->serveThreaded();
+            // binding port 0 can fail for a moment when the machine is short of ephemeral ports (many executions
+            // in parallel, closed connections lingering in TIME_WAIT): that is the environment's doing, so wait and
+            // try again; a bind that keeps failing is a harness error, never a verdict on pistache
+            for (int attempt = 0;; ++attempt)
+            {
+                try
+                {
+                    ep = std::make_shared<Http::Endpoint>(addr);
+                    ep->init(opts.threads(nworkers));
+                    ep->setHandler(handler);
+                    ep->serveThreaded();
+                    break;
+                }
+                catch (const std::exception& e)
+                {
+                    ep.reset();
+                    if (attempt >= 200 || ng_count() > 0)
+                        throw HarnessError { std::string("endpoint could not be started: ") + e.what() };
+                    usleep(50000);
+                }
+            }
             if (gatedStart)
             {
                 for (int waited = 0; ng_count() < 1 && waited < 5000; ++waited)
@@ -778,6 +795,9 @@ namespace sim
             sa.sin_addr.s_addr = htonl(INADDR_LOOPBACK);
             int one            = 1;
             setsockopt(fd, IPPROTO_TCP, TCP_NODELAY, &one, sizeof one);
+            // (the TIME_WAIT remnant of this socket must not keep its port away from later listeners that bind
+            // port 0 with SO_REUSEADDR: thousands of executions would otherwise use up the ephemeral ports)
+            setsockopt(fd, SOL_SOCKET, SO_REUSEADDR, &one, sizeof one);
             if (::connect(fd, (sockaddr*)&sa, sizeof sa) != 0)
                 return false;
             fcntl(fd, F_SETFL, fcntl(fd, F_GETFL) | O_NONBLOCK);
